@@ -46,6 +46,12 @@ def shl_parts(t):
 def shift_mask(t):
     """(source term, shift) if t = (src >> k) & 0xff"""
     t = strip_casts(t)
+    # byte k of p.to_be_bytes() is (p >> (24 - 8k)) & 0xff, of p.to_le_bytes() (p >> 8k) & 0xff
+    if t[0] in ('index', 'cidx') and is_call(strip_all(t[1]), 'to_be_bytes', 'to_le_bytes') and len(strip_all(t[1])[2]) == 1:
+        k = const_val(t[2]) if t[0] == 'index' else t[2]
+        c0 = strip_all(t[1])
+        if isinstance(k, int) and 0 <= k <= 3:
+            return value_of(c0[2][0]), (24 - 8 * k) if c0[1].endswith('to_be_bytes') else 8 * k
     if is_call(t, 'BitAnd::bitand') and len(t[2]) == 2 and const_val(t[2][1]) == 255:
         t = ('bin', 'BitAnd', t[2][0], t[2][1])       # `&u32 & 0xff` is an operator call
     if t[0] == 'bin' and t[1] == 'BitAnd' and const_val(t[3]) == 255:
@@ -62,6 +68,22 @@ def shift_mask(t):
     if is_call(t, 'Shr::shr') and len(t[2]) == 2 and const_val(t[2][1]) == 24:
         return value_of(t[2][0]), 24
     return None
+
+
+def is_buf_view(t):
+    """t is the pixel slice of self: self.buf.as_ref() / self.buf.as_mut(), or the accessors get_data() / get_data_mut()
+    (which R19.2 requires to return exactly that)"""
+    t = strip_all(t)
+    while t[0] in ('ref', 'deref'):
+        t = strip_all(t[1])
+    if is_call(t, 'AsRef::as_ref', 'AsMut::as_mut') and len(t[2]) == 1:
+        return is_self_field(strip_all(t[2][0]), 'buf')
+    if t[0] == 'call' and t[1] in (DT + 'get_data', DT + 'get_data_mut') and len(t[2]) == 1:
+        a = strip_all(t[2][0])
+        while a[0] in ('ref', 'deref'):
+            a = strip_all(a[1])
+        return a == ('param', 1)
+    return False
 
 
 def value_of(t):
@@ -231,7 +253,7 @@ def r19_1(ctx):
     if pixel is not None:
         D = Deps(an)
         leaves = D.closure(pixel)
-        okb = any(l[0] == 'path' and l[1] == ('param', 1) and l[2][-1:] == (('f', 'buf'),) for l in leaves) and any(is_call(x, 'Iterator::next') for x in D.visited)
+        okb = (any(l[0] == 'path' and l[1] == ('param', 1) and l[2][-1:] == (('f', 'buf'),) for l in leaves) or any(x[0] == 'call' and is_buf_view(x) for x in D.visited)) and any(is_call(x, 'Iterator::next') for x in D.visited)
     ctx.check(okb, R, key + '|iterates buf', wp.loc(), 'pixels come from iterating self.buf', 'the exported pixels are not obtained by iterating self.buf')
     wr = [ct for bi, d, ct in cs if d and d.endswith('write_image_data')]
     ctx.check(len(wr) == 1, R, key + '|write', wp.loc(), 'write_image_data called once', 'write_image_data is called %d times' % len(wr))
@@ -247,12 +269,16 @@ def r19_2(ctx):
         if ok:
             p, n = rts[0][2]
             p = strip_all(p)
-            okp = is_call(p, 'as_mut_ptr' if mutable else 'as_ptr') and is_call(strip_all(p[2][0]), 'AsMut::as_mut' if mutable else 'AsRef::as_ref') and is_self_field(strip_all(p[2][0])[2][0], 'buf')
+            if is_call(p, '::cast') and len(p[2]) == 1:
+                p = strip_all(p[2][0])          # ptr.cast::<u8>() for `ptr as *const u8`
+            okp = is_call(p, 'as_mut_ptr' if mutable else 'as_ptr') and is_buf_view(p[2][0])
             n = strip_casts(n)
+            if is_call(n, 'size_of_val') and len(n[2]) == 1 and is_buf_view(n[2][0]):
+                # the byte size of the very slice: len * size_of::<u32>() by definition
+                n = ('bin', 'Mul', ('call', 'core::slice::<impl [T]>::len', (n[2][0],), 0), ('const', 'usize', '4'))
             if n[0] == 'bin' and n[1] == 'Mul' and is_call(n[2], 'size_of') and not is_call(n[3], 'size_of'):
                 n = ('bin', 'Mul', n[3], n[2])      # multiplication commutes
-            lenok = (n[0] == 'bin' and n[1] == 'Mul' and is_call(strip_all(n[2]), '::len') and is_call(strip_all(strip_all(n[2])[2][0]), 'as_mut', 'as_ref')
-                     and is_self_field(strip_all(strip_all(n[2])[2][0])[2][0], 'buf'))
+            lenok = (n[0] == 'bin' and n[1] == 'Mul' and is_call(strip_all(n[2]), '::len') and is_buf_view(strip_all(n[2])[2][0]))
             okn = lenok and is_call(n[3], 'size_of') and n[3][1].endswith('size_of')
             if okn:
                 ci = ctx.an(b).callee_info(n[3][3])
@@ -274,6 +300,10 @@ def r19_3(ctx):
         b = ctx.body(DT + name, R)
         rts = shared.ret_terms(ctx, b)
         ok = len(rts) == 1 and rts[0][0] == 'field' and rts[0][1] == ('param', 1) and rts[0][2] == 'buf'
+        if not ok and name == 'into_vec' and len(rts) == 1:
+            # into_vec() = self.into_inner(), which is held to return self.buf just below
+            r0 = strip_all(rts[0])
+            ok = r0[0] == 'call' and r0[1] == DT + 'into_inner' and len(r0[2]) == 1 and strip_all(r0[2][0]) == ('param', 1)
         ctx.check(ok, R, 'draw_target::DrawTarget::%s' % name, b.loc(), 'returns the buf field', '%s returns %s, not self.buf' % (name, [fmt(b, t) for t in rts]))
     b = ctx.body(DT + 'from_backing', R)
     rts = shared.ret_terms(ctx, b)
@@ -282,9 +312,15 @@ def r19_3(ctx):
     b = ctx.body(DT + 'from_vec', R)
     an = ctx.an(b)
     rts = shared.ret_terms(ctx, b)
-    ok = len(rts) == 1 and rts[0][0] == 'agg'
+    # the struct literal itself, or delegation to from_backing(width, height, vec), which stores its arguments as given
+    deleg = len(rts) == 1 and is_call(strip_all(rts[0]), DT + 'from_backing') and len(strip_all(rts[0])[2]) == 3
+    ok = len(rts) == 1 and (rts[0][0] == 'agg' or deleg)
     if ok:
-        f = dict(rts[0][4])
+        if deleg:
+            a3 = strip_all(rts[0])[2]
+            f = {'width': a3[0], 'height': a3[1], 'buf': a3[2]}
+        else:
+            f = dict(rts[0][4])
         ok = f.get('buf') == ('mem', 3) and f.get('width') == ('param', 1) and f.get('height') == ('param', 2)
         rs = [ct for bi, d, ct in calls_in(ctx, b) if d and d.endswith('::resize')]
         rbs = [bi for bi, d, ct in calls_in(ctx, b) if d and d.endswith('::resize')]
@@ -298,7 +334,7 @@ def r19_3(ctx):
         # nothing else *mutates* vec (read-only uses through a shared reference — len(), is_empty(), capacity() — are harmless)
         others = []
         for bi, d, ct in calls_in(ctx, b):
-            if d and d.endswith('::resize'):
+            if d and (d.endswith('::resize') or (deleg and d == DT + 'from_backing')):
                 continue
             tys = b.blocks[bi]['t'].get('arg_tys') or []
             for k3, a in enumerate(ct[2]):
